@@ -153,6 +153,19 @@ func redecode(fd *descriptorpb.FileDescriptorProto, res extResolver) (*descripto
 // ---- the comparison ----
 const sourceCodeInfoField = 9
 
+// human-readable detail of the scalar differences of the last comparison (for the replay)
+var details []string
+
+func show(fd protoreflect.FieldDescriptor, v protoreflect.Value) string {
+	switch fd.Kind() {
+	case protoreflect.BytesKind:
+		return vhlib.Hx(v.Bytes())
+	case protoreflect.FloatKind, protoreflect.DoubleKind:
+		return fmt.Sprintf("%v(bits %x)", v.Float(), math.Float64bits(v.Float()))
+	}
+	return fmt.Sprintf("%q", fmt.Sprint(v.Interface()))
+}
+
 type fieldVal struct {
 	num protoreflect.FieldNumber
 	fd  protoreflect.FieldDescriptor
@@ -172,6 +185,10 @@ func populated(m protoreflect.Message) []fieldVal {
 func scalarEq(fd protoreflect.FieldDescriptor, a, b protoreflect.Value) bool {
 	switch fd.Kind() {
 	case protoreflect.FloatKind, protoreflect.DoubleKind:
+		// as proto.Equal: a NaN equals another NaN; otherwise the same bits (so -0 differs from 0)
+		if math.IsNaN(a.Float()) || math.IsNaN(b.Float()) {
+			return math.IsNaN(a.Float()) && math.IsNaN(b.Float())
+		}
 		return math.Float64bits(a.Float()) == math.Float64bits(b.Float())
 	case protoreflect.BytesKind:
 		return string(a.Bytes()) == string(b.Bytes())
@@ -180,7 +197,19 @@ func scalarEq(fd protoreflect.FieldDescriptor, a, b protoreflect.Value) bool {
 	}
 }
 
+// for a FieldDescriptorProto the path says which type of field it is: field<TYPE_ENUM>.default_value
+func typed(path string, a protoreflect.Message) string {
+	if a.Descriptor().FullName() != "google.protobuf.FieldDescriptorProto" || !strings.HasSuffix(path, ".") {
+		return path
+	}
+	if f, ok := a.Interface().(*descriptorpb.FieldDescriptorProto); ok {
+		return path[:len(path)-1] + "<" + f.GetType().String() + ">."
+	}
+	return path
+}
+
 func diffMsg(a, b protoreflect.Message, path string, top bool, diffs *[]string) {
+	path = typed(path, a)
 	fa, fb := populated(a), populated(b)
 	i, j := 0, 0
 	for i < len(fa) || j < len(fb) {
@@ -230,6 +259,7 @@ func diffField(fd protoreflect.FieldDescriptor, a, b protoreflect.Value, path st
 				diffMsg(la.Get(k).Message(), lb.Get(k).Message(), p+".", false, diffs)
 			} else if !scalarEq(fd, la.Get(k), lb.Get(k)) {
 				*diffs = append(*diffs, p)
+				details = append(details, p+": stable="+show(fd, la.Get(k))+" experimental="+show(fd, lb.Get(k)))
 			}
 		}
 	case fd.IsMap():
@@ -257,12 +287,14 @@ func diffField(fd protoreflect.FieldDescriptor, a, b protoreflect.Value, path st
 	default:
 		if !scalarEq(fd, a, b) {
 			*diffs = append(*diffs, p)
+			details = append(details, p+": stable="+show(fd, a)+" experimental="+show(fd, b))
 		}
 	}
 }
 
 func compareFDs(a, b *descriptorpb.FileDescriptorProto) []string {
 	var diffs []string
+	details = nil
 	diffMsg(a.ProtoReflect(), b.ProtoReflect(), "", true, &diffs)
 	// the same kind of difference once
 	seen := map[string]bool{}
@@ -455,7 +487,7 @@ func dualCase(in map[string]any) map[string]any {
 			return out
 		}
 		diffs := compareFDs(a, b)
-		cmp = append(cmp, map[string]any{"path": o.fds[i].GetName(), "equal": len(diffs) == 0, "diffs": diffs})
+		cmp = append(cmp, map[string]any{"path": o.fds[i].GetName(), "equal": len(diffs) == 0, "diffs": diffs, "details": strs(details)})
 		if vhlib.Bool(in, "trees") {
 			trees = append(trees, map[string]any{"path": o.fds[i].GetName(),
 				"old": tree(a.ProtoReflect(), o.fds[i].ProtoReflect(), 0),
